@@ -656,7 +656,7 @@ def disturb():
     return resolver_view(_disturber)
 
 
-def sibling_check(spec, mod, own):
+def sibling_check(spec, mod, own, root_answer=None):
     """History independence across SIBLING HIERARCHIES: further root classes over the run's non-root classes whose
     method resolution order continues differently after a shared class (gen.siblings).  In the program's module the
     run's top class is resolved first, then every sibling; in a fresh copy of the module (new class objects, nothing
@@ -670,7 +670,8 @@ def sibling_check(spec, mod, own):
         return canon_params(ctx.run(resolver_view, m, (cls, None))[0])
 
     count = len(mod.SIBLINGS)
-    top_first = answer(own, mod, mod.RUN_TOP)
+    # the run's top class is normally the program's root, which has been resolved first in this module already
+    top_first = root_answer if root_answer is not None and mod.ROOT == (mod.RUN_TOP, None) else answer(own, mod, mod.RUN_TOP)
     after = [answer(own, mod, sib) for sib in mod.SIBLINGS]  # each after the top class and the earlier siblings
     m2 = load(spec, with_siblings=True)
     try:
@@ -751,7 +752,7 @@ def judge(spec, with_parser=True, with_order=True, with_siblings=True):
             out["devs"] += own.run(parser_check, mod, spec, views, params)
             out["parsed"] = True
         if with_siblings:
-            devs, n, distinct = sibling_check(spec, mod, own)
+            devs, n, distinct = sibling_check(spec, mod, own, canon_params(params))
             out["devs"] += devs
             out["resolves"] += n
             out["siblings"] = len(mod.SIBLINGS)
@@ -795,6 +796,11 @@ def _pure_hierarchy_any_spelling(root, links):
     return root == "C" and all(l in gen.SUPER_LINKS for l in links[:-1])
 
 
+def _pure_hierarchy_own_spelling(root, links):
+    """pure hierarchies in which at least one level uses the explicit own-class spelling"""
+    return _pure_hierarchy_any_spelling(root, links) and "super_own" in links
+
+
 def _no_branching(root, links):
     return "inst_method" not in links and "ncc" not in links
 
@@ -816,15 +822,19 @@ _SUPER_FAMILY = ("super", "super_own", "super_skip", "super_method", "super_meth
 
 def _own_spelling_inside_super_chain(root, links):
     """The explicit own-class spelling super(ThisClass, self).m(**kwargs) is combined with every other link at depth 2;
-    at depth 3 (quick) it is generated only where it matters beyond that - inside a chain of two super-type links
+    at depth 3 and 4 it is generated only where it matters beyond that - inside a chain of two super-type links
     (the position of the class in the method resolution order is then not the first one)."""
     return not any(l in _OWN_SPELLING for l in links) or all(l in _SUPER_FAMILY for l in links[:-1])
+
+
+def _thorough_depth3(root, links):
+    return _at_most_one_branching(root, links) and _own_spelling_inside_super_chain(root, links)
 
 
 def _thorough_depth4(root, links):
     """No runtime branch; elif-not / else placement of a constant conditional at the root level only (as _quick_depth3;
     depth 3 of the thorough tier has every placement at every level)."""
-    return _no_branching(root, links) and not any(l in ("cc_elifnot", "cc_else") for l in links[1:])
+    return _no_branching(root, links) and not any(l in ("cc_elifnot", "cc_else") for l in links[1:]) and _own_spelling_inside_super_chain(root, links)
 
 
 def families(tier):
@@ -838,18 +848,20 @@ def families(tier):
             dict(name="depth2", depths=[2], size="mid", checks="full", same=True),
             dict(name="depth3", depths=[3], size="small", checks="resolve", same=False, link_filter=_quick_depth3, aux=False, siblings=True),
             dict(name="hierarchy4", depths=[4], size="tiny4", checks="resolve", same=False, link_filter=_pure_hierarchy, rich=True, siblings=True),
-            dict(name="hierarchy2+blank", depths=[2], size="small+", checks="full", same=True, link_filter=_pure_hierarchy_any_spelling, blank=True, siblings=True),
+            dict(name="hierarchy2+blank", depths=[2], size="small+", checks="full", same=True, link_filter=_pure_hierarchy, blank=True, siblings=True),
+            dict(name="hierarchy2+blank/own-class-super", depths=[2], size="small", checks="resolve", same=False, link_filter=_pure_hierarchy_own_spelling, blank=True, siblings=True),
             dict(name="hierarchy3+blank", depths=[3], size="tiny4", checks="resolve", same=False, link_filter=_pure_hierarchy, blank=True),
         ]
     return [
         dict(name="depth1", depths=[1], size="full", checks="full", same=True),
         dict(name="depth2", depths=[2], size="full", checks="full", same=True),
-        dict(name="depth3", depths=[3], size="med", checks="resolve", same=True, link_filter=_at_most_one_branching, siblings=True),
-        dict(name="depth4", depths=[4], size="tiny", checks="resolve", same=False, link_filter=_thorough_depth4, siblings=True),
+        dict(name="depth3", depths=[3], size="med", checks="resolve", same=True, link_filter=_thorough_depth3, siblings=True),
+        dict(name="depth4", depths=[4], size="tiny", checks="resolve", same=False, link_filter=_thorough_depth4),
         dict(name="hierarchy4", depths=[4], size="small", checks="full", same=True, link_filter=_pure_hierarchy, rich=True, siblings=True),
         dict(name="hierarchy5", depths=[5], size="tiny4", checks="resolve", same=False, link_filter=_pure_hierarchy, rich=True),
         dict(name="hierarchy2+blank", depths=[2], size="mid", checks="full", same=True, link_filter=_pure_hierarchy_any_spelling, blank=True, siblings=True),
-        dict(name="hierarchy3+blank", depths=[3], size="small", checks="resolve", same=False, link_filter=_pure_hierarchy_any_spelling, blank=True, siblings=True),
+        dict(name="hierarchy3+blank", depths=[3], size="small", checks="resolve", same=False, link_filter=_pure_hierarchy, blank=True, siblings=True),
+        dict(name="hierarchy3+blank/own-class-super", depths=[3], size="tiny", checks="resolve", same=False, link_filter=_pure_hierarchy_own_spelling, blank=True, siblings=True),
         dict(name="hierarchy4+blank", depths=[4], size="tiny", checks="resolve", same=False, link_filter=_pure_hierarchy, blank=True),
     ]
 
@@ -882,7 +894,9 @@ def explore(ctx):
         n0 = n_programs
         for spec in family_programs(fam):
             n_programs += 1
-            batch.append((spec, full, full, fam["name"], bool(fam.get("siblings"))))
+            # the re-resolution after the fixed other program is skipped for the "same"-scheme twin of a program (same
+            # statements, only the literal defaults / types agree): its "diff" twin gets it
+            batch.append((spec, full, full and spec["scheme"] == "diff", fam["name"], bool(fam.get("siblings"))))
             if len(batch) >= 100:
                 batches.append(batch)
                 batch = []
